@@ -551,6 +551,7 @@ func (fa *FuncAnalysis) mustReachPruned(from ssa.Instruction, targets []ssa.Inst
 		b      *ssa.BasicBlock
 		start  int
 		nonnil string
+		pred   *ssa.BasicBlock // block the walk came from (nil at the start)
 	}
 	seen := map[string]bool{}
 	type crumb struct {
@@ -571,6 +572,24 @@ func (fa *FuncAnalysis) mustReachPruned(from ssa.Instruction, targets []ssa.Inst
 				if ei >= 0 && ei < len(r.Results) && n.nonnil != "" {
 					if strings.Contains(n.nonnil, "\x00"+fa.Term(r.Results[ei]).String()+"\x00") {
 						return false // returns an error known to be non-nil on this path
+					}
+				}
+				// single-exit style (`if err == nil { err = g() }; return err`): the error returned is a phi of this
+				// block; on this path it is the value of the edge the walk came in through
+				if ei >= 0 && ei < len(r.Results) && n.pred != nil {
+					if phi, isPhi := r.Results[ei].(*ssa.Phi); isPhi && phi.Block() == n.b {
+						for pi, p := range n.b.Preds {
+							if p != n.pred || pi >= len(phi.Edges) {
+								continue
+							}
+							ev := phi.Edges[pi]
+							if strings.Contains(n.nonnil, "\x00"+fa.Term(ev).String()+"\x00") {
+								return false
+							}
+							if len(p.Instrs) > 0 && fa.provablyNonNil(ev, p.Instrs[len(p.Instrs)-1], 0) {
+								return false
+							}
+						}
 					}
 				}
 				if counts(r) {
@@ -600,18 +619,25 @@ func (fa *FuncAnalysis) mustReachPruned(from ssa.Instruction, targets []ssa.Inst
 				}
 			}
 			key := strconv.Itoa(s.Index) + "|" + nn
+			if len(s.Instrs) > 0 {
+				if _, isPhi := s.Instrs[0].(*ssa.Phi); isPhi {
+					if _, isRet := s.Instrs[len(s.Instrs)-1].(*ssa.Return); isRet {
+						key += "|from" + strconv.Itoa(n.b.Index) // what a return block returns depends on the edge
+					}
+				}
+			}
 			if seen[key] {
 				continue
 			}
 			seen[key] = true
-			if visit(node{s, 0, nn}, &crumb{s, c}) {
+			if visit(node{s, 0, nn, n.b}, &crumb{s, c}) {
 				return true
 			}
 		}
 		return false
 	}
 	start := from.Block()
-	if visit(node{start, fa.idx[from] + 1, ""}, nil) {
+	if visit(node{start, fa.idx[from] + 1, "", nil}, nil) {
 		var trail []string
 		for c := badCrumb; c != nil; c = c.prev {
 			trail = append([]string{blockLabel(fa, c.b)}, trail...)
